@@ -95,6 +95,51 @@ def _le(a, b):
     return a <= b or _near(a, b)
 
 
+VIEW_ACCESSORS = ("bin_edges", "bin_centers", "num_bins", "bin_entries", "bin_width", "mpv", "bin_labels", "xy_ranges_grid", "x_lim", "y_lim", "project_on_x", "project_on_y")
+VIEW_PROPERTIES = ("minBin", "maxBin", "num", "low", "high", "n_bins", "n_dim", "size", "keys", "values", "centers", "thresholds", "entries")
+
+
+def _touch_views(h, counters):
+    """Read every derived view of h (results discarded, exceptions swallowed).  Views are reads: taking them in the
+    middle of a fill history must not change what they report at the end - a cache that an accessor fills and a later
+    fill path forgets to drop shows up as a stale view in the checks that follow."""
+    for a in VIEW_ACCESSORS:
+        try:
+            f = getattr(h, a, None)  # some views (mpv) are properties: reading them is the call
+            if callable(f):
+                f()
+        except Exception:  # noqa: BLE001
+            pass
+    for a in VIEW_PROPERTIES:
+        try:
+            getattr(h, a, None)
+        except Exception:  # noqa: BLE001
+            pass
+    counters["views_read_mid_history"] = counters.get("views_read_mid_history", 0) + 1
+
+
+def _fill_history(h, recs_w, rng, counters):
+    """Fill h with (record, weight) pairs: row by row or in vectorised chunks, reading all views in between."""
+    mode = rng.choice(["rows", "rows", "numpy", "mixed"])
+    j = 0
+    n = len(recs_w)
+    while j < n:
+        step = rng.randint(1, max(1, n // 2))
+        chunk = recs_w[j : j + step]
+        j += step
+        use_np = mode == "numpy" or (mode == "mixed" and rng.random() < 0.5)
+        num_only = all(isinstance(v, float) for r, _ in chunk for v in r.values())
+        if use_np and num_only:
+            data = {f: np.array([r[f] for r, _ in chunk], dtype=float) for f in chunk[0][0]}
+            h.fill.numpy(data, np.array([w for _, w in chunk], dtype=float))
+            counters["vectorised_chunks"] = counters.get("vectorised_chunks", 0) + 1
+        else:
+            for r, w in chunk:
+                h.fill(r, w)
+        if j < n and rng.random() < 0.7:
+            _touch_views(h, counters)
+
+
 def _one_d_case(i, rng, tier):
     hg = env.hg()
     for _ in range(20):
@@ -119,10 +164,9 @@ def _one_d_case(i, rng, tier):
     if k == "SparselyBin":
         fills = [f for f in fills if abs((f - cfg["origin"]) / cfg["bw"]) < 2000]
     h = S.build(sp)
-    for f in fills:
-        h.fill({"x": f}, rng.choice([1.0, 0.5, 2.0]))
-    failures = []
     counters = {"configs:" + k: 1}
+    _fill_history(h, [({"x": float(f)}, rng.choice([1.0, 0.5, 2.0])) for f in fills], rng, counters)
+    failures = []
     wit = {"config": cfg, "fills": S.jsonable(fills)}
 
     def bad(msg, **kw):
@@ -410,10 +454,9 @@ def _two_d_case(i, rng, tier):
     if kind == "SparselyBin" and not any(not (math.isnan(x) or math.isnan(y)) for x, y, _ in pts):
         # a sparse 2-D histogram without a single datum on both axes has no grid (the accessors say so by raising)
         pts.append((0.31, 0.13, 1.0))
-    for x, y, w in pts:
-        h.fill({"x": x, "y": y}, w)
-    failures = []
     counters = {"two_d:" + kind: 1}
+    _fill_history(h, [({"x": float(x), "y": float(y)}, w) for x, y, w in pts], rng, counters)
+    failures = []
     wit = {"kind": kind, "points": pts}
 
     def bad(msg):
